@@ -45,6 +45,16 @@ def run(chk, facts, tier):
     chk.rule('version-once', 'LL_VERSION_IND is answered only while !version_indication_received_, which is set in that branch', floor=1)
     chk.rule('procedure-timeout-armed', 'each branch of transmit_pending_control_pdus that sends a request expecting an answer stores procedure_timeout_ = delta_time(default_procedure_timeout_us) (40 s)', floor=3)
     chk.rule('procedure-timeout-cleared-by-answer', 'in the LL_UNKNOWN_RSP / LL_REJECT_IND / LL_REJECT_EXT_IND branch procedure_timeout_ is cleared only under conditions that an answer naming an unrelated request refutes (three valued folding of the enclosing conditions with opcode_contains_request = true and body[1] = 0x14)', floor=2)
+    chk.rule('procedure-timer-uses-elapsed-time', 'end_event compares and decrements procedure_timeout_ with the time since the last connection event (time_since_last_event()), which grows with peripheral latency and missed events - not with one connection interval', floor=1)
+    for fn in variants(facts, LL + 'end_event', chk):
+        decs = [(val, st) for tgt, op, val, st in stores(fn.body) if is_name(tgt, 'procedure_timeout_') and op == '-=']
+        cmps = [b for n in deep_walk(fn.body) for b in [as_binop(n)] if b and b[0] in ('<=', '<', '>=', '>') and (is_name(b[1], 'procedure_timeout_') or is_name(b[2], 'procedure_timeout_'))]
+        if not chk.require(len(decs) == 1 and cmps, 'end_event: decrement / comparison of procedure_timeout_ not found (idiom not recognised)'):
+            continue
+        elapsed = lambda x: any(c.cn == 'time_since_last_event' for c in deep_calls(x))
+        other = [b[2] if is_name(b[1], 'procedure_timeout_') else b[1] for b in cmps]
+        ok = elapsed(decs[0][0]) and all(elapsed(o) for o in other)
+        chk.instance('procedure-timer-uses-elapsed-time', fn, 'procedure_timeout_ <= / -= time_since_last_event()', ok, '' if ok else 'the 40 s response timer is advanced by %s per handled connection event: with peripheral latency or missed events it runs slower than real time and an unanswered procedure keeps the link open' % decs[0][0].text()[:40], node=decs[0][1], key='end_event timer')
     chk.rule('procedure-timeout-ends-link', 'timeout() and end_event() call force_disconnect(connection_ll_response_timeout) exactly when the armed procedure timeout elapsed', floor=2)
 
     # opcode constants
